@@ -21,7 +21,7 @@ def stats(suffix):
     missed = sum(1 for m in ms if m.get('detection', '').startswith(('MISSED', 'NOT DETECTED', 'NOT JUDGED')))
     return len(ms), missed
 out = ["## Seeded changes and the checks that catch them\n\n",
- f"{len(rows)} changes written by independent sub-agents (rounds of twenty - one per property and round; from the fifth round on each agent was asked for two changes, kept as `-e`/`-f`, `-g`/`-h`, `-i`/`-j`, `-k`/`-l`, `-m`/`-n`, `-o`/`-p`, `-q`/`-r`, `-s`/`-t`; a last short round `-u` asked ten agents (C02, C03, C07, C12, C13, C14, C15, C16, C18, C20) for one change each under a 6- to 9-minute limit;\n"
+ f"{len(rows)} changes written by independent sub-agents (rounds of twenty - one per property and round; from the fifth round on each agent was asked for two changes, kept as `-e`/`-f`, `-g`/`-h`, `-i`/`-j`, `-k`/`-l`, `-m`/`-n`, `-o`/`-p`, `-q`/`-r`, `-s`/`-t`; a last short round `-u` asked fourteen agents (C02-C04, C07-C09, C11-C16, C18, C20) for one change each under a 4- to 9-minute limit; its one miss (C04-u, caught by C11 only) was found in the last minutes and is recorded, not widened;\n"
  "later rounds were asked for deep triggers and for a mechanism different from the earlier ones).\n"
  "All were confirmed (`tools/seeded.sh verify`) to compile, to pass the repository's 82 unit tests and\n"
  "doc tests, and to fail their author's demonstration. \"own check\" is the quick check of the property\n"
